@@ -120,7 +120,16 @@ func EditMember(rt *rapid.T, label string, t *abiref.Type, o Opts) (edited *abir
 	if nt == nil {
 		return nil, 0, "", false
 	}
-	what = old.Kind.String() + "->" + nt.Kind.String()
+	comp := func(t *abiref.Type) string {
+		if t.IsElementary() {
+			return "elementary"
+		}
+		return "composite"
+	}
+	what = comp(old) + "->" + comp(nt)
+	if old.Kind == nt.Kind && old.IsElementary() {
+		what = "same-base-other-size"
+	}
 	if old.IsDynamic() != nt.IsDynamic() {
 		what += ",dynamic-ness-changes"
 	}
